@@ -209,6 +209,12 @@ impl<'tcx> Dumper<'tcx> {
                 if let mir::Const::Unevaluated(uv, _) = c.const_ {
                     if let Some(p) = uv.promoted {
                         v.push(("promoted", J::I(p.index() as i128)));
+                    } else if (t.is_integral() || t.is_bool()) && !c.const_.has_param() {
+                        // a named constant (`const LIMIT: usize = 1024`): give its value
+                        let env = TypingEnv::post_analysis(tcx, def);
+                        if let Some(bits) = c.const_.try_eval_bits(tcx, env) {
+                            v.push(("ev", J::S(format!("{}", bits))));
+                        }
                     }
                 }
                 J::O(v)
